@@ -11,7 +11,7 @@ VERIF = "/verif"
 man = json.load(open(f"{VERIF}/MANIFEST.json"))
 ids = [c["property_id"] for c in man["checks"]]
 if a.checks:
-    ids = a.checks.split(",")
+    ids = list(dict.fromkeys(c for c in a.checks.split(",") if c))
 tree = f"/tmp/eval/{a.name}"
 out = f"/tmp/eval/{a.name}_out"
 shutil.rmtree(out, ignore_errors=True); os.makedirs(out, exist_ok=True)
